@@ -110,11 +110,28 @@ type sySpread struct {
 	every int
 	n     int
 	big   []Rec
+	begun bool // the begin marker of case idx has been written (by guard)
+}
+
+// guard is called before a lock-step scenario runs: its case will get index sp.idx. The scenario runs under the wedge
+// watcher of wedge.go (real time, outside the bubble): when no step is made for a second while a goroutine of the
+// bubble waits for a lock and nothing runs, the scenario is reported as wedged (a failing input) and the process
+// exits with status 3; ./check resumes after it.
+func (sp *sySpread) guard(kind string, desc any, tags []string) (step func(), stop func()) {
+	if sp == nil || !want(sp.idx) {
+		return func() {}, func() {}
+	}
+	sp.em.Marker("begin", sp.idx)
+	sp.begun = true
+	return guardWedge(sp.em, sp.idx, kind, desc, tags)
 }
 
 func (sp *sySpread) emit(r Rec) {
 	r.Idx = sp.idx
-	sp.em.Marker("begin", sp.idx)
+	if !sp.begun {
+		sp.em.Marker("begin", sp.idx)
+	}
+	sp.begun = false
 	if want(sp.idx) {
 		sp.em.Emit(r)
 	}
@@ -125,6 +142,10 @@ func (sp *sySpread) emit(r Rec) {
 // small emits a small case (nil: the case was skipped, its index is consumed) and perhaps a big one
 func (sp *sySpread) small(r *Rec) {
 	if r == nil {
+		if sp.begun {
+			sp.em.Marker("end", sp.idx)
+			sp.begun = false
+		}
 		sp.idx++
 	} else {
 		sp.emit(*r)
